@@ -464,6 +464,24 @@ def has_inst_hook(obj, modname):
                for c in k.__mro__ if getattr(c, "__module__", None) == modname for h in ("__livepatch__", "__reload_update__"))
 
 
+def cell_self_unnamed(fn, ns, modname):
+    """does a closure cell of the function hold a bound method whose __self__ is an instance of a module class that no
+    module-level name refers to (e.g. the name was rebound later)?  _livepatch__method only updates __func__, and nothing
+    else leads livepatch to that instance (D82)."""
+    if not isinstance(fn, types.FunctionType):
+        return False
+    named = set(id(v) for v in ns.values())
+    for c in fn.__closure__ or ():
+        try:
+            v = c.cell_contents
+        except ValueError:
+            continue
+        if isinstance(v, types.MethodType) and type(v.__self__).__module__ == modname and not isinstance(v.__self__, type) \
+                and id(v.__self__) not in named:
+            return True
+    return False
+
+
 def inmod_base(obj, modname):
     k = obj if isinstance(obj, type) else type(obj)
     return any(b.__module__ == modname for b in k.__mro__[1:])
@@ -729,6 +747,145 @@ def fresh_load(name, path, pkg=False, after=None):
     return mod
 
 
+# The property does not depend on the interpreter's optimisation level.  A case of kind "optlevel" runs one (old, new) pair
+# in child interpreters started without -O, with -O and with -OO (same script) and reports, per level, a canonical
+# observation of the reloaded module, of the references captured before the reload and of a fresh import of the new text
+# made by the same child.  Model independent; K has nothing to say about it (the Lean model has no optimisation level).
+_CHILD = r'''
+import sys, os, json, re, types, importlib, importlib.util
+lib, d, name = sys.argv[1:4]
+sys.path.insert(0, d)
+sys.path.insert(0, lib)
+sys.dont_write_bytecode = True
+os.environ["PYFLYBY_LOG_LEVEL"] = "ERROR"
+os.environ.setdefault("PYFLYBY_PATH", "EMPTY")
+import pyflyby
+assert os.path.realpath(pyflyby.__file__).startswith(os.path.realpath(lib)), pyflyby.__file__
+ADDR = re.compile(r"0x[0-9a-fA-F]+")
+path = os.path.join(d, name + ".py")
+old = open(os.path.join(d, "old.txt")).read()
+new = open(os.path.join(d, "new.txt")).read()
+
+def write(p, text, t):
+    with open(p, "w") as f:
+        f.write(text)
+    os.utime(p, (t, t))
+
+def call(f):
+    for args in ((), (2,), (2, 3)):
+        try:
+            return summary(f(*args), 1)
+        except TypeError:
+            continue
+        except Exception as e:
+            return "!" + type(e).__name__
+    return "!TypeError"
+
+def summary(v, depth=0):
+    if isinstance(v, (types.FunctionType, types.MethodType)):
+        return ["func", getattr(v, "__name__", "?"), call(v) if depth == 0 else None]
+    if isinstance(v, type):
+        if depth > 0:
+            return ["class", v.__name__]
+        try:
+            inst = v()
+        except Exception:
+            inst = None
+        attrs = {}
+        for a in sorted(dir(v)):
+            if a.startswith("__"):
+                continue
+            try:
+                x = getattr(inst if inst is not None else v, a)
+            except Exception as e:
+                attrs[a] = "!" + type(e).__name__
+                continue
+            attrs[a] = call(x) if callable(x) else summary(x, 1)
+        return ["class", v.__name__, [b.__name__ for b in v.__mro__], sorted(attrs.items())]
+    if isinstance(v, types.ModuleType):
+        return ["module", v.__name__]
+    if isinstance(v, (list, tuple)) and depth < 3:
+        return [type(v).__name__, [summary(x, depth + 1) for x in v]]
+    if isinstance(v, dict) and depth < 3:
+        return ["dict", sorted([repr(k), summary(x, depth + 1)] for k, x in v.items())]
+    if type(v).__module__ == name:
+        st = sorted((k, summary(x, depth + 1)) for k, x in getattr(v, "__dict__", {}).items())
+        meths = {}
+        for a in sorted(dir(type(v))):
+            if not a.startswith("__"):
+                try:
+                    x = getattr(v, a)
+                    meths[a] = call(x) if callable(x) else summary(x, depth + 1)
+                except Exception as e:
+                    meths[a] = "!" + type(e).__name__
+        return ["inst", type(v).__name__, st, sorted(meths.items())]
+    return ["value", ADDR.sub("0x", repr(v))]
+
+def pub(ns):
+    return sorted(n for n in ns if not n.startswith("__"))
+
+write(path, old, 1600000000)
+importlib.invalidate_caches()
+m = importlib.import_module(name)
+captured = {n: m.__dict__[n] for n in pub(m.__dict__)}
+insts = {n: v for n, v in captured.items() if type(v).__module__ == name and not isinstance(v, type)}
+import time
+t = time.time() + 100
+write(path, new, t)
+raised = None
+try:
+    pyflyby.xreload(m)
+except BaseException as e:
+    raised = type(e).__name__ + ": " + str(e)[:100]
+spec = importlib.util.spec_from_file_location(name, path)
+fresh = importlib.util.module_from_spec(spec)
+spec.loader.exec_module(fresh)
+md, fd = m.__dict__, fresh.__dict__
+out = dict(opt=sys.flags.optimize, raised=raised, names_post=pub(md), names_fresh=pub(fd),
+           post={n: summary(md[n]) for n in pub(md)}, fresh={n: summary(fd[n]) for n in pub(fd)},
+           captured={n: summary(v) for n, v in captured.items() if isinstance(v, (types.FunctionType, type)) and n in fd},
+           kept={n: md.get(n) is v for n, v in captured.items()
+                 if isinstance(v, (types.FunctionType, type)) and isinstance(fd.get(n), type(v)) and fd[n].__name__ == v.__name__},
+           inst_of={n: [isinstance(md.get(n), md[type(v).__name__]) if isinstance(md.get(type(v).__name__), type) else None,
+                        isinstance(fd.get(n), fd[type(v).__name__]) if isinstance(fd.get(type(v).__name__), type) else None]
+                    for n, v in insts.items() if n in md and n in fd})
+print("C16CHILD " + json.dumps(out, sort_keys=True))
+'''
+
+
+def run_optlevels(case, root):
+    """run the pair in child interpreters at optimisation levels 0, 1, 2; returns the list of their reports"""
+    import subprocess
+    from vcommon import REPO
+    d = tempfile.mkdtemp(prefix="c16opt_", dir=root if root and os.path.isdir(root) else None)
+    try:
+        script = os.path.join(d, "child.py")
+        with open(script, "w") as f:
+            f.write(_CHILD)
+        with open(os.path.join(d, "old.txt"), "w") as f:
+            f.write(gen_c16.source(case["old"]))
+        with open(os.path.join(d, "new.txt"), "w") as f:
+            f.write(gen_c16.source(case["new"]))
+        reports = []
+        env = dict(os.environ)
+        env.pop("PYTHONOPTIMIZE", None)
+        for lvl, flag in ((0, []), (1, ["-O"]), (2, ["-OO"])):
+            name = "c16o%d_%d" % (os.getpid(), lvl)
+            r = subprocess.run([sys.executable] + flag + [script, os.path.join(REPO, "lib", "python"), d, name],
+                               capture_output=True, text=True, timeout=60, env=env, cwd=d)
+            line = [l for l in r.stdout.splitlines() if l.startswith("C16CHILD ")]
+            if r.returncode != 0 or not line:
+                reports.append(dict(opt=lvl, child_failed=(r.stderr or r.stdout)[-400:]))
+            else:
+                rep_ = json.loads(line[-1][len("C16CHILD "):])
+                if rep_["opt"] != lvl:
+                    rep_["child_failed"] = "optimisation level %r, wanted %r" % (rep_["opt"], lvl)
+                reports.append(rep_)
+        return reports
+    finally:
+        shutil.rmtree(d, ignore_errors=True)
+
+
 def lay_out(base, name, pkg):
     """the path of module `name`'s own source below `base`; for a package the directory and its submodules are created"""
     if not pkg:
@@ -960,10 +1117,18 @@ class C16(Prop):
         # CPython refuses the __bases__ assignment (instance layout changes): the class is replaced, nothing half patched
         (["class D:\n    __slots__ = ('v',)\n    def __init__(self, v=0):\n        self.v = v", "class A(D):\n    def m(self):\n        return 1", "def user():\n    return A().m()"],
          ["class D:\n    __slots__ = ('v',)\n    def __init__(self, v=0):\n        self.v = v", "class A:\n    def m(self):\n        return 2", "def user():\n    return A().m()"]),
+        # only the order of the bases changes: other method resolution order for the class, its subclass, live instances
+        (["class A:\n    def who(self):\n        return 'A'\n    def only_a(self):\n        return 'a'", "class B:\n    def who(self):\n        return 'B'", "class D(A, B):\n    def tag(self):\n        return 'D:' + self.who()", "class E(D):\n    pass", "d1 = D()", "e1 = E()"],
+         ["class A:\n    def who(self):\n        return 'A'\n    def only_a(self):\n        return 'a'", "class B:\n    def who(self):\n        return 'B'", "class D(B, A):\n    def tag(self):\n        return 'D:' + self.who()", "class E(D):\n    pass", "d1 = D()", "e1 = E()"]),
+        # module-level instances without attributes (a sentinel) / that lose their attributes
+        (["class Unset:\n    def m(self):\n        return 1", "UNSET = Unset()", "def get(d, k='k'):\n    return d.get(k, UNSET) is UNSET", "class P:\n    def name(self):\n        return 'v1'", "plugin = P()", "plugin.debug = True"],
+         ["class Unset:\n    def m(self):\n        return 2", "UNSET = Unset()", "def get(d, k='k'):\n    return d.get(k, UNSET) is UNSET", "class P:\n    def name(self):\n        return 'v2'", "plugin = P()"]),
         # the captured variable of a closure is renamed: same closure length, other co_freevars
         (["def mk(p):\n    def inner(x=1):\n        return x * p\n    return inner", "cl = mk(2)", "def user():\n    return cl(3)"],
          ["def mk(r):\n    def inner(x=1):\n        return x * r + 1\n    return inner", "cl = mk(2)", "def user():\n    return cl(3)"]),
     ]
+
+    OPT_PAIRS = [0, 1, 2, 4, 8]
 
     def exhaustive_cases(self, tier, rng):
         out = []
@@ -974,10 +1139,15 @@ class C16(Prop):
                 for at in range(len(new) + 1):
                     for kind in kinds:
                         out.append(dict(old=old, new=new, fail=dict(at=at, kind=kind), via=via))
+        # a deterministic handful of pairs in child interpreters with and without -O / -OO
+        for i in self.OPT_PAIRS:
+            out.append(dict(kind="optlevel", old=self.PAIRS[i][0], new=self.PAIRS[i][1], fail=None, via="module"))
         return out
 
     # -- implementation + facts ------------------------------------------------
     def run_impl(self, case):
+        if case.get("kind") == "optlevel":
+            return dict(trivial=None, optlevel=run_optlevels(case, self._root))
         import pyflyby
         sys.dont_write_bytecode = True
         _COUNTER[0] += 1
@@ -1242,6 +1412,7 @@ class C16(Prop):
                 fl["kwdefaults_changed"] = n in kwbad
                 fl["old_foreign_modified"] = n in obs.get("foreign_modified", [])
                 fl["slots_mixed"] = False
+                fl["method_self_unnamed"] = bool(cell_self_unnamed(old_ns.get(n), old_ns, name) and cell_self_unnamed(fv, fd, name))
                 fl["inst_hook"] = bool(ismod and (has_inst_hook(fv, name) or has_inst_hook(old_ns.get(n), name)))
                 if ismod and not isinstance(fv, type):
                     sl = [k for k in type(fv).__mro__ if k.__dict__.get("__slots__")]
@@ -1271,7 +1442,7 @@ class C16(Prop):
                 for n, ds in deps.items():
                     for dn in ds:
                         for k in ("multi_paired", "cell_unpatchable", "kind_changed", "calls_foreign", "old_foreign_modified", "kwdefaults_changed",
-                                  "inst_hook"):
+                                  "inst_hook", "method_self_unnamed"):
                             if flags[dn][k] and not flags[n][k]:
                                 flags[n][k] = True
                                 changed = True
@@ -1292,6 +1463,28 @@ class C16(Prop):
                                                        and fd.get(type(fd[n]).__name__) is not type(fd[n])))
             obs["keep_names"] = keep_names
             obs["identity"] = ident
+            obs["inst_class"] = {n: type(fd[n]).__name__ for n in public(fd)
+                                 if type(fd[n]).__module__ == name and not isinstance(fd[n], type)}
+            # module-level instances that exist in both versions and that livepatch updates in place: an instance of a
+            # class of the module bound under its own name in both versions, the class unchanged in shape and still the
+            # old object, plain instance dict, no __slots__, only in-module ancestors.  Such an instance is not "born in
+            # the scratch module" (D43): it must stay an instance of the module's class.
+            for n in pubs:
+                ov, fv = old_ns[n], fd.get(n)
+                if n not in flags or isinstance(ov, type) or isinstance(fv, type) or fv is None:
+                    continue
+                ko, kn = type(ov), type(fv)
+                if ko.__module__ != name or kn.__module__ != name or ko.__name__ != kn.__name__:
+                    continue
+                cn = ko.__name__
+                flags[n]["inst_patchable"] = bool(
+                    old_ns.get(cn) is ko and fd.get(cn) is kn and cn in keep_names and md.get(cn) is ko
+                    and type(ko) is type and type(kn) is type
+                    and all(c is object or (c.__module__ == name and "__slots__" not in c.__dict__) for c in ko.__mro__)
+                    and all(c is object or (c.__module__ == name and "__slots__" not in c.__dict__) for c in kn.__mro__)
+                    and type(getattr(ov, "__dict__", None)) is dict and type(getattr(fv, "__dict__", None)) is dict
+                    and not flags[n].get("multi_paired") and not flags.get(cn, {}).get("multi_paired")
+                    and not has_inst_hook(ko, name) and not has_inst_hook(kn, name))
             meth_ident = {}
             for q, v in cap_methods.items():
                 cn, a = q.split(".")
@@ -1355,7 +1548,46 @@ class C16(Prop):
             shutil.rmtree(d, ignore_errors=True)
 
     # -- oracle ---------------------------------------------------------------------
+    def _oracle_optlevel(self, case, obs):
+        fails = []
+        brief = dict(old=case["old"], new=case["new"], kind="optlevel")
+        reps = obs.get("optlevel") or []
+        base = reps[0] if reps else {}
+        for r in reps:
+            lvl = dict(optimize=r.get("opt"))
+            if r.get("child_failed"):
+                fails.append(dict(what="child interpreter did not complete the reload", err=r["child_failed"], **lvl, **brief))
+                continue
+            if r["raised"] is not None:
+                fails.append(dict(what="xreload raised although the new source executes", err=r["raised"], **lvl, **brief))
+                continue
+            if r["names_post"] != r["names_fresh"]:
+                fails.append(dict(what="names differ from a fresh import", got=r["names_post"], want=r["names_fresh"], **lvl, **brief))
+                continue
+            d = diff_obs(r["post"], r["fresh"])
+            if d:
+                fails.append(dict(what="namespace differs from a fresh import", where=d, **lvl, **brief))
+            lost = sorted(n for n, k in r["kept"].items() if not k)
+            if lost:
+                fails.append(dict(what="captured reference lost identity although its shape is unchanged", names=lost, **lvl, **brief))
+            for n, sv in sorted(r["captured"].items()):
+                if r["kept"].get(n) and sv != r["fresh"].get(n):
+                    fails.append(dict(what="captured reference does not behave as the new source", name=n, got=sv,
+                                      want=r["fresh"].get(n), **lvl, **brief))
+            for n, (got, want) in sorted(r["inst_of"].items()):
+                if got != want:
+                    fails.append(dict(what="class relation differs from a fresh import", rel=["isinstance", n, got], **lvl, **brief))
+            if not base.get("child_failed"):
+                for f in ("post", "captured", "kept", "inst_of", "names_post"):
+                    d = diff_obs(r.get(f), base.get(f))
+                    if d:
+                        fails.append(dict(what="result depends on the interpreter's optimisation level", field=f, where=d, **lvl, **brief))
+                        break
+        return fails[:6]
+
     def oracle(self, case, obs):
+        if case.get("kind") == "optlevel":
+            return self._oracle_optlevel(case, obs)
         if obs.get("trivial"):
             return []
         fails = []
@@ -1437,7 +1669,8 @@ class C16(Prop):
                                       flags=flags.get(n), **brief))
         for r_got, r_want in zip(post["relations"], fresh["relations"]):
             if r_got != r_want:
-                fails.append(dict(what="class relation differs from a fresh import", rel=r_got,
+                own = (obs.get("inst_class") or {}).get(r_got[1]) if r_got[0] in ("isinstance", "type_is") else None
+                fails.append(dict(what="class relation differs from a fresh import", rel=r_got, rel_own_class=own,
                                   flags=flags.get(r_got[1], {}), flags_b=flags.get(r_got[2], {}), **brief))
         if post["aliases"] != fresh["aliases"]:
             inv = sorted(set(n for g in post["aliases"] + fresh["aliases"]
@@ -1480,6 +1713,8 @@ class C16(Prop):
               "KeyError": "KeyError"}
 
     def _k_skip(self, case, obs):
+        if case.get("kind") == "optlevel":
+            return "optimisation-level case (child interpreters; O only, the model has no optimisation level)"
         k = obs.get("k")
         if obs.get("trivial") or not k:
             return "trivial"
@@ -1667,10 +1902,16 @@ class C16(Prop):
         w = f.get("what", "")
         fa, fb = f.get("flags") or {}, f.get("flags_b") or {}
         if w.startswith("class relation differs"):
+            if fa.get("inst_patchable") and f.get("rel", [None, None, None])[2] == f.get("rel_own_class"):
+                return False      # an instance that livepatch updates in place, against its own class: not scratch-born
             return (fa.get("bound") == "new" and bool(fa.get("foreign"))) or (fb.get("bound") == "new" and bool(fb.get("foreign")))
         if w.startswith("namespace differs"):
             writer = any("global " in st for st in case["new"])
             zsuper = any("super()" in st for st in case["new"])
+            if str(f.get("where", "")).startswith("/mro") and fa.get("bound") == "kept" and fa.get("foreign") and fa.get("inmod_base"):
+                # a class that had to be replaced (e.g. CPython refused its new __bases__) is scratch-born and derives from
+                # the scratch module's classes; a kept class below it then has both generations in its MRO
+                return True
             return ((bool(fa.get("foreign")) and (f.get("phase") == 2 or bool(case.get("pre")) or writer or zsuper))
                     or (bool(fa.get("calls_foreign")) and (bool(case.get("pre")) or f.get("phase") == 2))
                     or (writer and bool(f.get("any_scratch_born"))))
@@ -1739,6 +1980,8 @@ C16.families = {
                                                                                               "captured method lost identity"))
                                                 and (bool(f.get("identity", {}).get("cell_type_inmod"))
                                                      or bool(f.get("identity", {}).get("meta_shadowed")))),
+    "bound_method_self_not_updated": (lambda case, f: f.get("what", "").startswith(("namespace differs", "captured reference does not behave"))
+                                      and bool((f.get("flags") or {}).get("method_self_unnamed"))),
     "enum_member_reassigned": C16._fam_raise("cannot reassign member"),
     "slots_instance_setattr_typeerror": C16._fam_raise("setattr expected 3 arguments"),
     "class_dict_descriptor_not_writable": C16._fam_raise("attribute '__dict__' of 'type' objects is not writable"),
